@@ -956,6 +956,22 @@ def round24(x, ties_away=True):
     return -r if neg else r
 
 
+def ulp24(x):
+    """unit in the last place of a 24-bit float holding x"""
+    from fractions import Fraction
+    m = abs(x)
+    if m == 0:
+        return Fraction(0)
+    e = 0
+    while m >= 2 ** 24:
+        m /= 2
+        e += 1
+    while m < 2 ** 23:
+        m *= 2
+        e -= 1
+    return Fraction(2) ** e
+
+
 def word16(lo, hi):
     u = lo + 256 * hi
     return u if u < 32768 else u - 65536
@@ -1076,6 +1092,10 @@ def single_oracle(case, out):
                 if passed(c):
                     ended = True
                     break
+                if abs(st) <= 2 * ulp24(c):
+                    # within the error bound of Float.iadd (2 units in the last place, C04/C05) the sum may be
+                    # the counter itself: the property does not decide this loop
+                    return None
                 c = round24(c + st, ties)
             if not ended:
                 return None
@@ -1114,7 +1134,7 @@ def single_oracle(case, out):
                 if ev[1] not in (SINGLE_MAX, SINGLE_MIN):
                     return 'after Overflow the counter is not machine infinity'
             else:
-                tol = abs(want) * Fraction(1, 2 ** 23)
+                tol = 2 * max(ulp24(want), ulp24(c), ulp24(cur))
                 if abs(c - want) > tol:
                     return 'counter %s is not the previous value %s plus the step, rounded' % (float(c), float(cur))
         pending_ovf = False
